@@ -12,8 +12,8 @@
 EXTENDS Slice, TLC, Json
 CONSTANTS NPts, NDays, NSlots, StitchCfg
 
-VARIABLES kind, s, lb, ub, oc, ubs, n, done
-vars == <<kind, s, lb, ub, oc, ubs, n, done>>
+VARIABLES kind, s, lb, ub, oc, ubs, n, done, res     \* res: the expected result, computed once by Eval
+vars == <<kind, s, lb, ub, oc, ubs, n, done, res>>
 \* the case as one record (s = the series of a slice case, the list of series of a stitch case)
 cs == [kind |-> kind, s |-> s, ss |-> s, lb |-> lb, ub |-> ub, oc |-> oc, ubs |-> ubs, n |-> n]
 
@@ -42,21 +42,23 @@ StitchMid   == {<<1, 4>>, <<2, 4>>, <<3, 3>>}
 StitchBig   == {<<1, 4>>, <<2, 4>>, <<3, 3>>, <<4, 2>>}
 NoStitch    == {}
 
-Init == (InitDate \/ InitTod \/ InitStitch) /\ done = FALSE
-Eval == done = FALSE /\ done' = TRUE /\ UNCHANGED <<kind, s, lb, ub, oc, ubs, n>>
+Init == (InitDate \/ InitTod \/ InitStitch) /\ done = FALSE /\ res = <<>>
 
 IsSlice  == cs.kind \in {"date", "tod"}
 IsStitch == cs.kind = "stitch"
 Sl(xl, xu, xo) == Slice(s, xl, xu, xo, kind, B)
-Out   == Sl(cs.lb, cs.ub, cs.oc)
+Out   == res
 UbsI  == IF Increasing(cs.ubs) THEN cs.ubs ELSE Rev(cs.ubs)      \* the bounds / series in increasing order
 SsI   == IF Increasing(cs.ubs) THEN cs.ss ELSE Rev(cs.ss)
-Fr    == Stitch(cs.ss, cs.ubs, cs.n)
+Fr    == res
+Eval  == /\ done = FALSE /\ done' = TRUE
+         /\ res' = IF IsSlice THEN Sl(lb, ub, oc) ELSE Stitch(s, ubs, n)
+         /\ UNCHANGED <<kind, s, lb, ub, oc, ubs, n>>
 
 EvalGen == Eval /\ PrintT(ToJson(
     IF IsSlice THEN [kind |-> cs.kind, B |-> B, s |-> cs.s, lb |-> cs.lb, ub |-> cs.ub, oc |-> cs.oc,
-                     wraps |-> Wraps(cs.lb, cs.ub, cs.kind), want |-> Out]
-    ELSE [kind |-> "stitch", ss |-> cs.ss, ubs |-> cs.ubs, n |-> cs.n, ubsI |-> UbsI, want |-> Fr]))
+                     wraps |-> Wraps(cs.lb, cs.ub, cs.kind), want |-> res']
+    ELSE [kind |-> "stitch", ss |-> cs.ss, ubs |-> cs.ubs, n |-> cs.n, ubsI |-> UbsI, want |-> res']))
 
 RowSet(f) == RangeOf(f.rows)
 KeyOf(t)  == Key(t, cs.kind, B)
